@@ -342,7 +342,7 @@ fn run_target(target: &str, rng: &mut Rng, allow_huge: bool) -> (String, J) {
             let ds = gen_dataset(rng, &o);
             let text = dicom_json::to_string(&to_object(&ds)).unwrap_or_default();
             let b = text.as_bytes();
-            let (m, mname) = match rng.usize(4) { 0 => ({ let k = rng.usize(64); rng.bytes(k) }, "random"), _ => mutate(rng, b, b"{\"00080005\":{\"vr\":\"CS\",\"Value\":[null,1e999,{}]}}", false) };
+            let (m, mname) = match rng.usize(5) { 0 => ({ let k = rng.usize(64); rng.bytes(k) }, "random"), 4 => (crate::props::c23::member_order_doc(rng).into_bytes(), "member-order"), _ => mutate(rng, b, b"{\"00080005\":{\"vr\":\"CS\",\"Value\":[null,1e999,{}]}}", false) };
             let s = String::from_utf8_lossy(&m).to_string();
             let _ = dicom_json::from_str::<InMemDicomObject>(&s);
             let _ = dicom_json::from_slice::<InMemDicomObject>(&m);
